@@ -380,6 +380,11 @@ class Pair:
         hc = self.handlers['c'] = ScriptedHandler(self.world, 'c', self.driver)
         ka = timedelta(seconds=cfg.get('keepalive', BIG))
         ml = timedelta(seconds=cfg.get('max_lifetime', 2 * BIG))
+        if cfg.get('lease'):
+            # a lease-honouring client; the server publishes the scripted leases (the last one is unlimited)
+            from .checks.c14 import ScriptedLeasePublisher
+            self.server_kwargs = dict(self.server_kwargs, lease_publisher=ScriptedLeasePublisher(cfg['lease']))
+            self.client_kwargs = dict(self.client_kwargs, honor_lease=True)
         self.server = RSocketServer(self.link.transports['s'], handler_factory=lambda: hs,
                                     fragment_size_bytes=cfg.get('frag_s'), **self.server_kwargs)
 
@@ -475,10 +480,15 @@ def instrument_endpoint_queue(world, ep, side):
         orig = getattr(ep, name)
 
         def wrapper(frame, _orig=orig, _name=name):
+            # the frame "enters the send path" when it lands in the send queue; a frame the library decides to hold
+            # back (behind a request that waits for a lease) is recorded when the library releases it
             d = libcodec.snapshot(frame)
-            world.events.append({'t': world.now(), 'kind': 'queue', 'ep': side, 'f': d,
-                                 'priority': _name == 'send_priority_frame', 'i': len(world.events)})
-            return _orig(frame)
+            before = ep._send_queue.qsize()
+            r = _orig(frame)
+            if ep._send_queue.qsize() > before:
+                world.events.append({'t': world.now(), 'kind': 'queue', 'ep': side, 'f': d,
+                                     'priority': _name == 'send_priority_frame', 'i': len(world.events)})
+            return r
 
         setattr(ep, name, wrapper)
 
